@@ -452,4 +452,54 @@ def estep (s : ESpace) : EOp → ESpace
 
 def erun (c : ECfg) (cap : Nat) (ops : List EOp) : ESpace := ops.foldl estep (einit c cap)
 
+/-! ### references to `space.agent_positions` kept by the user
+`agent_positions` is re-sliced from `_agent_positions` by every add / remove, and `_agent_positions` is re-allocated
+(`np.vstack`) when it is full.  A reference `v = space.agent_positions` the user keeps is a view of rows `0 .. len` of the
+array that was `_agent_positions` when it was taken.  A re-allocation makes the array strictly larger and nothing ever
+shrinks it, so within one history the number of rows names the array: the reference reaches the space's current array iff
+the capacity is still what it was (`C10_exp_capacity_names_the_array`). -/
+
+structure Held where
+  cap : Nat   -- rows of the array it is a view of
+  len : Nat   -- its own length: `_n_agents` when it was taken
+deriving Repr, DecidableEq
+
+/-- `v = space.agent_positions` -/
+def holdView (s : ESpace) : Held := ⟨s.cap, s.view⟩
+
+/-- `v[i] = p` as far as the space is concerned: a write into row `i` of the space's array if `v` still is a view of it,
+    nothing if the array has been re-allocated since (`IndexError` beyond the length the reference has) -/
+def heldWrite (s : ESpace) (v : Held) (i : Nat) (p : Pos) : Except Err ESpace :=
+  if i < v.len then
+    if v.cap = s.cap then .ok { s with buf := upd s.buf i p } else .ok s
+  else .error .index
+
+/-- the space together with the arrays it has dropped (by their number of rows), which only kept references reach -/
+structure HSpace where
+  sp : ESpace
+  orph : Nat → Nat → Pos
+
+def hinit (c : ECfg) (cap : Nat) : HSpace := ⟨einit c cap, fun _ _ => []⟩
+
+/-- after a call that took the space from `h.sp` to `s'`: a re-allocation (`vstack` copies) leaves the old array, as it
+    is, to whoever still refers to it -/
+def HSpace.advance (h : HSpace) (s' : ESpace) : HSpace :=
+  { sp := s', orph := if s'.cap = h.sp.cap then h.orph else upd h.orph h.sp.cap h.sp.buf }
+
+/-- `v[i] = p` -/
+def HSpace.write (h : HSpace) (v : Held) (i : Nat) (p : Pos) : Except Err HSpace :=
+  match heldWrite h.sp v i p with
+  | .error e => .error e
+  | .ok s' =>
+    .ok { sp := s', orph := if v.cap = h.sp.cap then h.orph else upd h.orph v.cap (upd (h.orph v.cap) i p) }
+
+/-- the rows `v` shows -/
+def HSpace.read (h : HSpace) (v : Held) : List Pos :=
+  (List.range v.len).map (if v.cap = h.sp.cap then h.sp.buf else h.orph v.cap)
+
+/-- one call of a history, with the dropped arrays kept -/
+def hstep (h : HSpace) (op : EOp) : HSpace := h.advance (estep h.sp op)
+
+def hrun (c : ECfg) (cap : Nat) (ops : List EOp) : HSpace := ops.foldl hstep (hinit c cap)
+
 end Mesa.Cont
